@@ -151,6 +151,8 @@ impl<T> Link<T> {
 
     #[inline]
     pub fn as_ref(&self) -> &RcBox<T> {
+        #[cfg(cactusref_verif)]
+        crate::verif::emit(crate::verif::ACCESS, self.ptr.as_ptr() as usize);
         unsafe { self.ptr.as_ref() }
     }
 
@@ -163,11 +165,15 @@ impl<T> Link<T> {
 impl<T> RcInnerPtr for Link<T> {
     #[inline(always)]
     fn weak_ref(&self) -> &Cell<usize> {
+        #[cfg(cactusref_verif)]
+        crate::verif::emit(crate::verif::ACCESS, self.ptr.as_ptr() as usize);
         unsafe { self.ptr.as_ref().weak_ref() }
     }
 
     #[inline(always)]
     fn strong_ref(&self) -> &Cell<usize> {
+        #[cfg(cactusref_verif)]
+        crate::verif::emit(crate::verif::ACCESS, self.ptr.as_ptr() as usize);
         unsafe { self.ptr.as_ref().strong_ref() }
     }
 }
